@@ -714,8 +714,14 @@ class DBusObjectHandler :
         """
         d = {}
 
+        # only paths strictly beneath objectPath: "/a/bc" is not under "/a/b"
+        if objectPath == '/':
+            prefix = objectPath
+        else:
+            prefix = objectPath + '/'
+
         for p in sorted(self.exports.keys()):
-            if not p.startswith(objectPath) or p == objectPath:
+            if not p.startswith(prefix) or p == objectPath:
                 continue
             o = self.exports[p]
             i = {}
